@@ -41,6 +41,9 @@ def build():
     # ---- file handle with a position
     def fh_tell(interp, recv, args, kwargs):
         if recv.attrs.get("tell_unsupported") is True:
+            # a stream without a position: io.UnsupportedOperation (buffered / in-memory wrappers) or a plain OSError(ESPIPE) (pipes, sockets, ttys)
+            if interp.ctx.choose(2, "tell:plain-OSError") == 1:
+                interp.raise_("OSError")
             raise PyRaise(SExc(p.exc_by_dotted("io.UnsupportedOperation"), ()))
         return interp.ctx.ghost["POS"]
 
@@ -135,7 +138,7 @@ def build():
         interp.ctx.assume(z3.And(ops.as_int_term(g["POS"]) >= 0, ops.as_int_term(g["NBYTES"]) >= 0, ops.as_int_term(env.lookup("array").attrs["itemsize"]) >= 1))
 
     ALIGN = 16
-    WR = ObjOf("NumpyArrayWrapper", order=OneOf("C", "F"), numpy_array_alignment_bytes=OneOf(16, None), shape=OpaqueOf("shape"), dtype=OpaqueOf("dtype", hasobject=False, itemsize=OneOf(1, 2, 4, 8, 16)), allow_mmap=BOOL, subclass=OpaqueOf("cls"))
+    WR = ObjOf("NumpyArrayWrapper", order=OneOf("C", "F"), numpy_array_alignment_bytes=OneOf(16, None), shape=OpaqueOf("shape"), dtype=OpaqueOf("dtype", hasobject=False, itemsize=OneOf(0, 1, 2, 4, 8, 16)), allow_mmap=BOOL, subclass=OpaqueOf("cls"))
     p.add(Contract(
         NP, "NumpyArrayWrapper.write_array", props=["C19"], ghost=GH, setup=wsetup,
         inline={"safe_get_numpy_array_alignment_bytes"},
@@ -253,7 +256,7 @@ def build():
 
     for_items_shape(p)
     RD = lambda: ObjOf("NumpyArrayWrapper", order=OneOf("C", "F"), numpy_array_alignment_bytes=OneOf(16, None), shape=shape_kind,
-                       dtype=OpaqueOf("dtype", hasobject=False, itemsize=OneOf(1, 2, 4, 8, 16)), allow_mmap=BOOL, subclass=OpaqueOf("cls"))
+                       dtype=OpaqueOf("dtype", hasobject=False, itemsize=OneOf(0, 1, 2, 4, 8, 16)), allow_mmap=BOOL, subclass=OpaqueOf("cls"))
     unp = lambda **kw: OpaqueOf("unpicklerobj", file_handle=OpaqueOf("fh", name=STR), np=OpaqueOf("np"), **kw)
     p.add(Contract(
         NP, "NumpyArrayWrapper.read_array", props=["C19"], ghost=dict(POS=INT, COUNT=INT, PADBYTE=INT), setup=rsetup, globals=rglob,
@@ -267,11 +270,13 @@ def build():
             "fortran_order_is_transposed_back": "(n_events('transpose') == 1) == (self.order == 'F')",
             # the property asks for identical dtype (either endianness) and element bytes
             "dtype_and_element_bytes_come_back_unchanged": "n_events('convert-to-native-byte-order') == 0",
+            "no_bytes_are_decoded_for_item_size_zero": "implies(self.dtype.itemsize == 0, n_events('frombuffer') == 0)",
             "dtype_and_element_bytes_unchanged_outside_K7": "implies(not ensure_native_byte_order, n_events('convert-to-native-byte-order') == 0)",
         },
         loops={1: Loop(
-            "for i in range(0, count, max_read_count)",
-            invariant={"read_so_far": "POS == DATA_START + minimum(_i * max_read_count, count) * self.dtype.itemsize", "step": "max_read_count >= 1"},
+            "for i in range(0, n_to_read, max_read_count)",
+            invariant={"read_so_far": "POS == DATA_START + minimum(_i * max_read_count, n_to_read) * self.dtype.itemsize", "step": "max_read_count >= 1",
+                       "everything_or_nothing_to_read": "n_to_read == (count if self.dtype.itemsize > 0 else 0)"},
             havoc=["ghost:POS"],
         )},
     ))
